@@ -46,7 +46,8 @@ REACH = {
         "startup_loss_same_iteration_as_timeout", "numbering_restarted_checked", "clean_close_while_waiting",
         "numbering_checked_after_reset", "numbering_checked_after_startup", "second_request_judged",
         "request_after_a_timed_out_request_completed", "ncp_frame_between_rst_and_rstack", "rst_write_failed",
-        "host_frame_pending_at_reset", "queued_frame_numbered_from_zero", "old_frame_retransmitted_between_rst_and_rstack"]
+        "host_frame_pending_at_reset", "queued_frame_numbered_from_zero", "old_frame_retransmitted_between_rst_and_rstack",
+        "threaded_waiter_released_with_connection_error"]
     for t in ("quick", "thorough")
 }
 SOFTWARE = 0x0B
@@ -562,7 +563,128 @@ def gen_cases(tier, seed):
 
 def shards(tier, seed):
     n = 16 if tier == "quick" else 48
-    return [{"tier": tier, "seed": seed, "k": k, "n": n} for k in range(n)]
+    out = [{"tier": tier, "seed": seed, "k": k, "n": n} for k in range(n)]
+    out.append({"tier": tier, "seed": seed, "part": "threaded", "rounds": 12 if tier == "quick" else 60, "debuglog": False})
+    return out
+
+
+def run_threaded(desc) -> Acc:
+    """The same waiter-release clause with the gateway living in its own thread (use_thread=True, the
+    default in production): real bellows.uart.connect, real EventLoopThread / ThreadsafeProxy, a fake
+    serial port inside the worker loop.  Real time is used here; a waiter that is not released within
+    3 s counts as left pending (the loss is delivered a few milliseconds after the request)."""
+    import zigpy.serial
+
+    import bellows.uart as uart
+    from .. import ncpsim
+
+    acc = Acc()
+    rnd = random.Random(desc["seed"])
+
+    class ThreadApp:
+        def __init__(self):
+            self.events = []
+
+        def enter_failed_state(self, code):
+            self.events.append(("failed", code))
+
+        def connection_lost(self, exc):
+            self.events.append(("lost", type(exc).__name__ if exc is not None else None))
+
+        def frame_received(self, data):
+            self.events.append(("frame", bytes(data)))
+
+    class FakeTr:
+        def __init__(self):
+            self.writes = []
+            self.closing = False
+
+        def write(self, data):
+            self.writes.append(bytes(data))
+
+        def is_closing(self):
+            return self.closing
+
+        def close(self):
+            self.closing = True
+
+    async def one(waiter, kind, delay):
+        box = {}
+        saved = zigpy.serial.create_serial_connection
+
+        async def fake_serial(loop, protocol_factory, **kw):
+            proto = protocol_factory()
+            tr = FakeTr()
+            box.update(loop=loop, proto=proto, tr=tr)
+            loop.call_soon(proto.connection_made, tr)
+            return tr, proto
+
+        zigpy.serial.create_serial_connection = fake_serial
+        app = ThreadApp()
+        try:
+            gw = await uart.connect(ncpsim.device_config("/dev/ttyVERIF"), app, use_thread=True)
+        finally:
+            zigpy.serial.create_serial_connection = saved
+        case = {"part": "threaded", "waiter": waiter, "loss": kind, "delay": delay}
+        acc.case()
+
+        async def wait():
+            if waiter == "reset":
+                return await gw.reset()
+            return await gw.wait_for_startup_reset()
+
+        task = asyncio.ensure_future(wait())
+        # wait until the request has really started inside the worker thread (RST written / waiter
+        # registered), so that the loss finds a *pending* waiter; then an optional extra delay
+        inner = getattr(gw, "_obj", None)
+        for _ in range(400):
+            if waiter == "reset" and box["tr"].writes:
+                break
+            if waiter == "startup" and getattr(inner, "_startup_reset_future", None) is not None:
+                break
+            await asyncio.sleep(0.005)
+        else:
+            acc.notes.append("threaded: could not observe the start of the request; waited 2 s instead")
+        await asyncio.sleep(delay)
+
+        def lose():
+            box["tr"].closing = True
+            if kind == "eof":
+                box["proto"].eof_received()
+            else:
+                box["proto"].connection_lost(OSError("serial port gone"))
+
+        box["loop"].call_soon_threadsafe(lose)
+        try:
+            r = await asyncio.wait_for(asyncio.shield(task), 3.0)
+            out = ("returned", r)
+        except asyncio.TimeoutError:
+            out = ("pending",)
+            task.cancel()
+        except asyncio.CancelledError:
+            out = ("CancelledError",)
+        except BaseException as ex:  # noqa: BLE001
+            out = (type(ex).__name__,)
+        want = ("OSError",) if kind == "error" else ("ConnectionResetError",)
+        if out == ("pending",):
+            acc.violation("C11/hang/waiter-left-pending", f"threaded gateway: {waiter} waiter still pending 3 s after the connection was lost ({kind})", case)
+        elif out != want:
+            acc.violation("C11/connection-lost/waiter-not-released-with-connection-error",
+                          f"threaded gateway: {waiter} waiter ended with {out} after a connection loss ({kind}), expected {want}", case)
+        else:
+            acc.hit("threaded_waiter_released_with_connection_error")
+        await asyncio.sleep(0.05)
+        if kind == "error" and not any(e[0] == "lost" for e in app.events):
+            acc.violation("C11/connection-lost/application-not-told", "threaded gateway: the application was not told about the loss", case)
+        acc.nontrivial(("threaded", waiter, kind, delay))
+
+    async def main():
+        for r in range(desc["rounds"]):
+            await one(rnd.choice(["reset", "reset", "startup"]), rnd.choice(["error", "eof"]), rnd.choice([0.0, 0.002, 0.02]))
+
+    asyncio.run(main())
+    acc.sample({"threaded_gateway": True, "rounds": desc["rounds"]})
+    return acc
 
 
 def run_one(acc: Acc, case):
@@ -613,6 +735,8 @@ def run_shard(desc) -> Acc:
     import logging
 
     logmode.apply(desc)
+    if desc.get("part") == "threaded":
+        return run_threaded(desc)
     acc = Acc()
     for i, case in enumerate(gen_cases(desc["tier"], desc["seed"])):
         if i % desc["n"] != desc["k"]:
